@@ -605,6 +605,9 @@ var c13Seeds = []string{
 	"steps:\n  - command: x\n    x: 2001-12-14t21:59:43.10-05:00", "steps:\n  - command: x\n    x: !!binary aGVsbG8=", "steps:\n  - !!str wait", "--- \nsteps: []\n--- \nsteps: [wait]",
 	"steps:\n  - trigger: t\n    n:\n      q: [\"\\na\"]", "steps:\n  - command: x\n    \"<<\": y", "steps:\n  - null: x\n    command: y", "steps:\n  - ~: x", "\xff\xfe", "\x00", "{\"steps\": [{\"command\": \"x\"}]",
 	"steps:\n\t- wait", "%YAML 1.1\n---\nsteps: [wait]", "steps: [wait]\n...\njunk", "&a steps: [*a]", "steps: &s [wait, *s]", "steps: [&w wait, *w, *w]",
+	// keys that need escapes JSON and Go spell differently (control characters, DEL, a non-printable non-BMP rune)
+	"steps:\n  - command: x\n    agents: {\"\\e\": 1, \"\\a\": 2, \"\\v\": 3, \"\\x7f\": 4, \"\\0\": 5}", "env: {\"K\\e\": v}\nsteps:\n  - wait: ~\n    \"\\U000E0001\": x",
+	"steps:\n  - \"\\b\\f\": {\"\\x1f\": [{\"\\N\": 1}]}\n    trigger: t",
 	// self-containing sequences (no mapping node on the cycle) as merge values and as values
 	"steps:\n  - {command: x, <<: &loop [*loop]}\n  - wait", "steps:\n  - command: x\n    <<: &p [&q [*p, *q]]", "<<: &l [[*l]]\nsteps: [wait]",
 	"steps:\n  - trigger: t\n    cfg: {<<: &s [*s, *s], a: 1}", "steps:\n  - &m {command: x, <<: [*m]}", "steps:\n  - &m {command: x, y: {<<: [[*m]]}}",
